@@ -144,7 +144,7 @@ def py_split(text):
 
 def run_split_correspondence(chk):
     rng = chk.rng
-    n = 700 if chk.tier == "quick" else 12000
+    n = 700 if chk.tier == "quick" else 30000
     cmp_ = core.CoqCompare("c19_split", IMPORTS, "split", "option_eqb (list_eqb String.eqb)", "string", "option (list string)",
                            shard=400)
     dist = {"wellformed": 0, "malformed_stream": 0, "errors": 0, "args": 0}
@@ -248,9 +248,13 @@ def build_specs(chk, n_random_names):
         cases.append(case)
         i += 1
     # processes that die from a signal: Popen reports -N
-    for sig in ((9, 15) if chk.tier == "quick" else (1, 2, 6, 9, 15)):
+    for sig in ((9, 15) if chk.tier == "quick" else (1, 9, 10, 12, 15)):   # signals Python does not handle itself
         cases.append({"name": None, "key": f"s{sig}", "flags": flags4[sig % 4], "exit": -sig, "signal": sig, "args_text": "",
                       "intended": [f"--key=s{sig}", f"--signal={sig}"], "command": f"{PROBE_CMD} --key=s{sig} --signal={sig}"})
+    # jobs that are canceled instead of run (AsyncCliCommand.cancel): a row with return code 1 / canceled
+    for i in range(4 if chk.tier == "quick" else 24):
+        cases.append({"name": None, "key": f"c{i}", "flags": flags4[i % 4], "exit": 1, "signal": None, "args_text": "", "cancel": True,
+                      "intended": [f"--key=c{i}"], "command": f"{PROBE_CMD} --key=c{i}"})
     # commands whose quoting is broken: nothing may be started
     # (only without append flags: text appended after an open quote / a dangling backslash would pair up with it)
     for bad in ("'x", 'a "b', "a\\", "a 'b' \"c"):
@@ -304,6 +308,14 @@ def check_launch_batch(chk, lb, cases, meta):
             extras.append("--jade-runtime-output=" + out)
         dump = lb.probe_dump(c["key"])
         chk.count(("launch", name, c["command"], c["flags"], c["exit"]))
+        if c.get("cancel"):
+            rs = by_name.get(name, [])
+            ok = (len(rs) == 1 and rs[0].return_code == 1 and rs[0].status == "canceled" and rs[0].hpc_job_id == lb.expected_hpc_id
+                  and rcs.get(name) == 1)
+            if not ok or dump is not None or (name + ".o") in listing:
+                chk.violation("cancel-row", "a canceled job is not recorded as (name, 1, canceled, node's hpc id) or was started",
+                              dict(rep, rows=[list(r) for r in rs], probe=dump))
+            continue
         if c["intended"] is None:   # broken quoting
             if dump is not None or name in by_name:
                 chk.violation("malformed-command-started", "a command with unbalanced quoting was started / recorded",
@@ -380,7 +392,7 @@ def run_launch(chk, tmp, cmp_gen, cmp_fmt, cmp_read):
     from jade.jobs.results_aggregator import ResultsAggregator
     from jade.result import Result
     rng = chk.rng
-    cases = build_specs(chk, 30 if chk.tier == "quick" else 400)
+    cases = build_specs(chk, 30 if chk.tier == "quick" else 1000)
     # names for the anonymous cases
     used = set(DIRECTED_NAMES) | {c["name"] for c in cases if c["name"]}
     for c in cases:
@@ -412,7 +424,9 @@ def run_launch(chk, tmp, cmp_gen, cmp_fmt, cmp_read):
                  for c in chunk]
         lb = launchdrv.Launch(out, specs, hpc_type=hpc_type, batch_id=b + 1, slurm_job_id=sid or "0")
         try:
-            lb.run_async_jobs(parallel=core.NCPU)
+            canceled = {c["name"] for c in chunk if c.get("cancel")}
+            lb.run_async_jobs(parallel=core.NCPU, skip=canceled)
+            lb.cancel(canceled)
             meta = {"batch_id": b + 1, "slurm_job_id": sid}
             rows, cmds = check_launch_batch(chk, lb, chunk, meta)
         finally:
